@@ -1784,6 +1784,17 @@ impl<'t, 'c> Gen<'t, 'c> {
                 main.push(Stmt::Label(resume_targets[k].clone()));
                 main.push(self.tok_err("l"));
                 target_placed[k] = true;
+                // now and then a RETURN right after the landing label, once: whatever GOSUBs the abandoned procedures had
+                // pending are gone with them, only the main module's own count
+                if self.t.chance(1, 3) {
+                    let c2 = match self.prog.vars.iter().position(|x| x.name == "CN2%") {
+                        Some(i) => sv("CN2%", i, Ty::Int),
+                        None => sv("CN2%", self.add_var("CN2%".into(), STy::B(Ty::Int), vec![], true), Ty::Int),
+                    };
+                    main.push(Stmt::Assign(c2.clone(), b(BinOp::Add, ld(&c2), lit_i(1))));
+                    main.push(Stmt::IfLine { cond: b(BinOp::Eq, ld(&c2), lit_i(1)), then_: vec![Stmt::Return], else_: None });
+                    main.push(self.tok("y"));
+                }
             }
         }
         main.push(pr(vec![s_lit("end"), Expr::BuiltIn { name: "ERR".into(), args: vec![], ty: Ty::Int }, ld(&sentinel), ld(&cv.z), ld(&cv.big), ld(&cv.idx), ld(&cv.n), ld(&cv.small), ld(&cv.sres), ld(&cv.tres)]));
